@@ -159,6 +159,15 @@ def const_value(n, tu=None):
         d = tu.get(n['referencedDecl']['id'])
         if d is not None:
             return const_value(d, None)
+    if n.get('kind') == 'DeclRefExpr' and tu is not None and n.get('referencedDecl', {}).get('kind') == 'VarDecl':
+        # a named compile-time constant (static constexpr member, namespace-scope constexpr)
+        d = tu.get(n['referencedDecl']['id'])
+        if d is not None and (d.get('constexpr') or 'const ' in d.get('type', {}).get('qualType', '') + ' '):
+            for c in d.get('inner', []):
+                v = const_value(c, tu)
+                if v is not None:
+                    return v
+        return None
     for c in n.get('inner', []):
         v = const_value(c, tu)
         if v is not None:
@@ -236,6 +245,7 @@ class Sym:
         self.size = layout[cls]['size']
         self.mem = ('Var', 0, 8 * self.size)
         self.args = {}
+        self.locals = {}      # id of a local VarDecl -> current symbolic value
         self.ret = None
         self.wrote = False
 
@@ -248,7 +258,7 @@ class Sym:
             cur = cur['inner'][0]
             while cur['kind'] in ('ImplicitCastExpr', 'ParenExpr'):
                 cur = cur['inner'][0]
-        if cur['kind'] != 'CXXThisExpr':
+        if cur['kind'] != 'CXXThisExpr' or getattr(self, 'pure', False):
             raise Untranslatable('member of something else than this')
         path = [p for p in reversed(path) if p]
         key = '.'.join(path)
@@ -341,6 +351,8 @@ class Sym:
                 if v is None:
                     raise Untranslatable('enum constant without value')
                 return Cst(v & ((1 << self.width_of(n)[0]) - 1))
+            if rd['kind'] == 'VarDecl' and rd['id'] in self.locals:
+                return self.locals[rd['id']]
             if rd['kind'] == 'VarDecl':
                 d = self.tu.get(rd['id'])
                 if d is None:
@@ -396,10 +408,29 @@ class Sym:
                 return a if w == 8 else ('Bswap', w // 8, a)
             if name == 'to_underlying':
                 return self.ev(inner[1])
-            raise Untranslatable('call to ' + str(name))
+            return self.free_call(callee, inner[1:], name)
         if k == 'CXXMemberCallExpr':
             return self.member_call(n, want_value=True)
         raise Untranslatable(k)
+
+    def free_call(self, callee, argnodes, name):
+        """call of a free (possibly template-instantiated) function with a body in this TU: executed symbolically on the argument
+        values; it must be pure (no `this`, no writes)"""
+        rd = callee.get('referencedDecl', {})
+        fd = self.tu.get(rd.get('id')) if rd.get('kind') == 'FunctionDecl' else None
+        if fd is None or self.depth > 6 or not any(c.get('kind') == 'CompoundStmt' for c in fd.get('inner', [])):
+            raise Untranslatable('call to ' + str(name))
+        args = [self.ev(a) for a in argnodes]
+        sub = Sym(self.W, self.tu, self.cls, self.layout, self.depth + 1)
+        sub.pure = True
+        sub.run(fd, args)
+        if sub.wrote or sub.ret is None:
+            raise Untranslatable('call to ' + str(name) + ' (not a pure value function)')
+        rt = fd['type']['qualType'].split('(')[0].strip()
+        rti = type_info({'qualType': rt}) or ((self.enum_width(rt), False) if self.enum_width(rt) else None)
+        if rti is None:
+            raise Untranslatable('return type of ' + str(name))
+        return trunc(rti[0], sub.ret)
 
     def member_call(self, n, want_value):
         inner = n['inner']
@@ -430,60 +461,86 @@ class Sym:
         for p, a in zip(params, args):
             self.args[p.get('name', '')] = trunc(self.width_of(p)[0], a)
         body = [c for c in mnode['inner'] if c['kind'] == 'CompoundStmt'][0]
-        self.block(body)
+        self.run_stmts([body])
 
-    def block(self, st):
-        """executes a statement; returns True if control certainly left the function (return)"""
-        k = st['kind']; inner = st.get('inner', [])
-        if k == 'CompoundStmt':
-            for s in inner:
-                if self.block(s):
-                    return True
-            return False
-        if k == 'ReturnStmt':
-            if inner:
-                v = self.ev(inner[0])
-                self.ret = v
-            return True
-        if k in ('ExprWithCleanups', 'ParenExpr'):
-            return self.block(inner[0])
-        if k == 'NullStmt':
-            return False
-        if k == 'IfStmt':
-            parts = [c for c in inner]
-            c = self.ev(parts[0])
-            a = Sym(self.W, self.tu, self.cls, self.layout, self.depth); a.mem, a.args, a.ret = self.mem, dict(self.args), self.ret
-            b = Sym(self.W, self.tu, self.cls, self.layout, self.depth); b.mem, b.args, b.ret = self.mem, dict(self.args), self.ret
-            ra = a.block(parts[1])
-            rb = b.block(parts[2]) if len(parts) > 2 else False
-            if ra != rb:
-                raise Untranslatable('return in one branch only')
-            self.mem = a.mem if a.mem == b.mem else ('Ite', c, a.mem, b.mem)
-            self.wrote = self.wrote or a.wrote or b.wrote
-            if a.ret is not None or b.ret is not None:
-                if a.ret is None or b.ret is None:
+    def fork(self):
+        f = Sym(self.W, self.tu, self.cls, self.layout, self.depth)
+        f.mem, f.args, f.locals, f.ret, f.wrote = self.mem, dict(self.args), dict(self.locals), self.ret, self.wrote
+        f.pure = getattr(self, 'pure', False)
+        return f
+
+    def run_stmts(self, stmts):
+        """executes the statement list to the END OF THE FUNCTION (a return stops it): every `if` forks, both branches run through the
+        rest of the function, and the final memories / return values are merged under the condition - so early returns, if/else
+        ladders and ternaries all end up as the same kind of term"""
+        stmts = list(stmts)
+        while stmts:
+            st = stmts.pop(0)
+            k = st['kind']; inner = st.get('inner', [])
+            if k == 'CompoundStmt':
+                stmts = list(inner) + stmts
+                continue
+            if k in ('ExprWithCleanups', 'ParenExpr') and inner:
+                stmts = [inner[0]] + stmts
+                continue
+            if k == 'NullStmt':
+                continue
+            if k == 'ReturnStmt':
+                if inner:
+                    self.ret = self.ev(inner[0])
+                return
+            if k == 'IfStmt':
+                if st.get('hasInit') or st.get('hasVar'):
+                    raise Untranslatable('if with initialiser')
+                c = self.ev(inner[0])
+                a, b = self.fork(), self.fork()
+                a.run_stmts([inner[1]] + stmts)
+                b.run_stmts(([inner[2]] if len(inner) > 2 else []) + stmts)
+                self.mem = a.mem if a.mem == b.mem else ('Ite', c, a.mem, b.mem)
+                self.wrote = a.wrote or b.wrote
+                if (a.ret is None) != (b.ret is None):
                     raise Untranslatable('return value in one branch only')
-                self.ret = ('Ite', c, a.ret, b.ret)
-            return ra
-        if k == 'BinaryOperator' and st.get('opcode') == '=':
-            lhs = inner[0]
-            if lhs['kind'] != 'MemberExpr':
-                raise Untranslatable('assignment to a non-member')
-            off, size, ti = self.field_ref(lhs)
-            self.write_field(off, size, self.ev(inner[1]))
-            return False
-        if k == 'CompoundAssignOperator':
-            lhs = inner[0]; op = st['opcode'][:-1]
-            if lhs['kind'] != 'MemberExpr' or op not in ('&', '|', '^'):
-                raise Untranslatable('compound assignment ' + st['opcode'])
-            off, size, ti = self.field_ref(lhs)
-            a = self.read_field(off, size); b = self.ev(inner[1])
-            self.write_field(off, size, ({'&': 'And', '|': 'Or', '^': 'Xor'}[op], a, b))
-            return False
-        if k == 'CXXMemberCallExpr':
-            self.member_call(st, want_value=False)
-            return False
-        raise Untranslatable('statement ' + k)
+                self.ret = None if a.ret is None else (a.ret if a.ret == b.ret else ('Ite', c, a.ret, b.ret))
+                return
+            if k == 'DeclStmt':
+                for d in inner:
+                    if d.get('kind') in ('StaticAssertDecl', 'TypedefDecl', 'TypeAliasDecl', 'UsingDecl'):
+                        continue
+                    if d.get('kind') != 'VarDecl' or d.get('storageClass') == 'static':
+                        raise Untranslatable('declaration ' + str(d.get('kind')))
+                    init = [c for c in d.get('inner', []) if 'type' in c or c.get('kind', '').endswith('Expr') or c.get('kind', '').endswith('Literal')]
+                    if not init:
+                        raise Untranslatable('local without initialiser')
+                    self.locals[d['id']] = trunc(self.width_of(d)[0], self.ev(init[-1]))
+                continue
+            if k == 'BinaryOperator' and st.get('opcode') == '=':
+                lhs = inner[0]
+                if lhs['kind'] == 'DeclRefExpr' and lhs['referencedDecl']['id'] in self.locals:
+                    self.locals[lhs['referencedDecl']['id']] = trunc(self.width_of(lhs)[0], self.ev(inner[1]))
+                    continue
+                if lhs['kind'] != 'MemberExpr':
+                    raise Untranslatable('assignment to a non-member')
+                off, size, ti = self.field_ref(lhs)
+                self.write_field(off, size, self.ev(inner[1]))
+                continue
+            if k == 'CompoundAssignOperator':
+                lhs = inner[0]; op = st['opcode'][:-1]
+                if op not in ('&', '|', '^'):
+                    raise Untranslatable('compound assignment ' + st['opcode'])
+                if lhs['kind'] == 'DeclRefExpr' and lhs['referencedDecl']['id'] in self.locals:
+                    w = self.width_of(lhs)[0]
+                    self.locals[lhs['referencedDecl']['id']] = trunc(w, ({'&': 'And', '|': 'Or', '^': 'Xor'}[op], self.locals[lhs['referencedDecl']['id']], self.ev(inner[1])))
+                    continue
+                if lhs['kind'] != 'MemberExpr':
+                    raise Untranslatable('compound assignment ' + st['opcode'])
+                off, size, ti = self.field_ref(lhs)
+                a = self.read_field(off, size); b = self.ev(inner[1])
+                self.write_field(off, size, ({'&': 'And', '|': 'Or', '^': 'Xor'}[op], a, b))
+                continue
+            if k == 'CXXMemberCallExpr':
+                self.member_call(st, want_value=False)
+                continue
+            raise Untranslatable('statement ' + k)
 
 # ------------------------------------------------------------------ forwarding accessors of payload classes
 def forwarding(mnode):
@@ -526,14 +583,42 @@ def forwarding(mnode):
 def inventory_functions(W):
     """(ii) local objects of library classes and (iii) allocation forms / uninitialised scalar locals in library code"""
     locals_, allocs = [], []
+    memcpy_inited = set()
+    def strip(x):
+        while x.get('kind') in ('ImplicitCastExpr', 'ParenExpr', 'ExprWithCleanups', 'CStyleCastExpr', 'CXXStaticCastExpr', 'CXXReinterpretCastExpr') and x.get('inner'):
+            x = x['inner'][0]
+        return x
+    def memcpy_into(st, var):
+        """st is `memcpy(&var, src, sizeof(var))` (or sizeof of var's type): every byte of var is assigned before any read"""
+        st = strip(st)
+        if st.get('kind') != 'CallExpr' or len(st.get('inner', [])) != 4:
+            return False
+        if strip(st['inner'][0]).get('referencedDecl', {}).get('name') != 'memcpy':
+            return False
+        dst = strip(st['inner'][1])
+        if dst.get('kind') != 'UnaryOperator' or dst.get('opcode') != '&' or strip(dst['inner'][0]).get('referencedDecl', {}).get('id') != var['id']:
+            return False
+        sz = strip(st['inner'][3])
+        if sz.get('kind') != 'UnaryExprOrTypeTraitExpr' or sz.get('name') != 'sizeof':
+            return False
+        if sz.get('inner'):
+            return strip(sz['inner'][0]).get('referencedDecl', {}).get('id') == var['id']
+        return sz.get('argType', {}).get('qualType', '?').replace('const ', '') == var['type']['qualType'].replace('const ', '')
     def visit(fn, n):
         k = n.get('kind')
+        if k == 'CompoundStmt':
+            ch = n.get('inner', [])
+            for i, c in enumerate(ch):
+                if c.get('kind') == 'DeclStmt' and i + 1 < len(ch):
+                    for d in c.get('inner', []):
+                        if d.get('kind') == 'VarDecl' and 'init' not in d and memcpy_into(ch[i + 1], d):
+                            memcpy_inited.add(d['id'])
         if k == 'VarDecl' and n.get('storageClass') != 'static':
             t = n['type'].get('desugaredQualType') or n['type']['qualType']
             has_init = 'init' in n
             tq = t.replace('const ', '')
             if not has_init and (type_info(n['type']) is not None or tq.endswith('*') or tq.endswith(']')):
-                allocs.append((fn, 'UninitLocal', n.get('name', ''), tq))
+                allocs.append((fn, 'MemcpyInitLocal' if n.get('id') in memcpy_inited else 'UninitLocal', n.get('name', ''), tq))
             if any(tq.replace('class ', '').replace('struct ', '') == q or tq.endswith('::' + q.split('::')[-1]) and q.endswith(tq.split('::')[-1]) for q in W.records):
                 locals_.append((fn, n.get('name', ''), tq, n.get('init', 'default')))
         if k == 'VarDecl' and n.get('storageClass') == 'static':
